@@ -2,7 +2,7 @@
 An expression is a nested tuple mirroring coq/C01/Syntax.v `expr`; `feel(e)` renders fully parenthesised FEEL text,
 `coq(e)` the Gallina term."""
 
-NAMES = {50: 'item', 60: 'partial', 101: 'va', 102: 'vb', 103: 'vc', 104: 'vd', 105: 've', 106: 'vf', 107: 'vg', 108: 'vh'}
+NAMES = {50: 'item', 60: 'partial', 201: 'abs', 202: 'sum', 203: 'count', 204: 'not', 101: 'va', 102: 'vb', 103: 'vc', 104: 'vd', 105: 've', 106: 'vf', 107: 'vg', 108: 'vh'}
 VARS = [101, 102, 103, 104, 105, 106, 107, 108]
 ID_OF = {v: k for k, v in NAMES.items()}
 BINOPS = {'Add': '+', 'Sub': '-', 'Mul': '*', 'Div': '/', 'Exp': '**', 'Eq': '=', 'Ne': '!=', 'Lt': '<', 'Le': '<=', 'Gt': '>', 'Ge': '>=', 'And': 'and', 'Or': 'or'}
@@ -601,6 +601,25 @@ def systematic_cases(gen, tries=40):
             cases.append((entries, build(c), pname, rt))
         missing += [(pname, rt) for rt in all_roots if rt not in found]
     return cases, missing
+
+
+def builtin_name_cases():
+    """names spelled like built-in functions bound to user-defined functions by a context entry, the input context, a formal parameter, an
+    iteration variable, and invoked (positionally and by name): a binding of the invoked name hides the built-in (seeded change C01_g)"""
+    n = lambda z: ('num', z)
+    cases = []
+    for nm in (201, 202, 203, 204):
+        f = ('fun', (101,), ('bin', 'Add', ('name', 101), n(100)))
+        call = ('call', ('name', nm), (n(-1),))
+        calln = ('calln', ('name', nm), ((101, n(-1)),))
+        for c in (call, calln):
+            cases.append(((), ('path', ('ctx', ((nm, f), (102, c))), 102)))                          # context entry
+            cases.append((((nm, f),), c))                                                              # input context
+            cases.append(((), ('call', ('fun', (nm,), c), (f,))))                                      # formal parameter
+            cases.append(((), ('for', ((nm, ('dlist', ('list', (f,)))),), c)))                         # iteration variable
+            cases.append(((), ('some', ((nm, ('list', (f,))),), ('bin', 'Eq', c, n(99)))))
+            cases.append(((), ('filter', ('list', (n(5), n(6))), ('bin', 'Eq', ('path', ('ctx', ((nm, f), (102, c))), 102), n(99)))))
+    return cases
 
 
 def shadow_cases(gen):
